@@ -36,6 +36,8 @@ type c06Event struct {
 	Reinit    bool `json:"link_change_reinit,omitempty"`
 	WriteErr  bool `json:"next_multicast_write_fails,omitempty"`
 	FwdFlip   bool `json:"forwarding_flips,omitempty"`
+	// WatchClose: the link-state watcher halts (its subscription channel is closed).
+	WatchClose bool `json:"watcher_halts,omitempty"`
 	// UFail: a unicast solicitation arrives whose answer cannot be delivered: the next
 	// unicast transmission fails with this errno.
 	UFail string        `json:"unicast_answer_fails_with,omitempty"`
@@ -101,6 +103,7 @@ func c06Scenario(c c06Case, keep **advWorld) *vsched.Scenario {
 				defer a.done()
 				var at time.Duration
 				fwd := true
+				watchClosed := false
 				for i, e := range c.Events {
 					if i == 0 {
 						if e.Gap > time.Millisecond {
@@ -119,6 +122,14 @@ func c06Scenario(c c06Case, keep **advWorld) *vsched.Scenario {
 					case e.UFail != "":
 						failU = e.UFail
 						a.inject(rsFrom("fe80::5", true))
+					case e.WatchClose:
+						if !watchClosed {
+							watchClosed = true
+							vsched.Obs("watcher-halts", "")
+							vsched.Close("harness:watcher-halts", a.watchC)
+						}
+					case e.Reinit && watchClosed:
+						// no link-state events once the watcher has halted
 					case e.FwdFlip:
 						fwd = !fwd
 						a.st.setFwd("eth0", fwd)
@@ -224,7 +235,7 @@ func c06Check(c c06Case, x *vsched.Exec, a *advWorld) (out [][2]string) {
 	var at time.Duration
 	for _, e := range c.Events {
 		at += e.Gap
-		if e.Multicast && !e.Reinit && !e.WriteErr && !e.FwdFlip && e.UFail == "" && !c.UnicastOnly {
+		if e.Multicast && !e.Reinit && !e.WriteErr && !e.FwdFlip && !e.WatchClose && e.UFail == "" && !c.UnicastOnly {
 			trigs = append(trigs, trig{at, "solicitation-from-::"})
 		}
 	}
@@ -253,7 +264,7 @@ func c06Check(c c06Case, x *vsched.Exec, a *advWorld) (out [][2]string) {
 	// Unicast solicitations are answered (C07 has the precise bound).
 	nu := 0
 	for _, e := range c.Events {
-		if !e.Multicast && !e.Reinit && !e.WriteErr && !e.FwdFlip && e.UFail == "" {
+		if !e.Multicast && !e.Reinit && !e.WriteErr && !e.FwdFlip && !e.WatchClose && e.UFail == "" {
 			nu++
 		}
 	}
@@ -294,6 +305,9 @@ func (c c06Case) String() string {
 		if e.UFail != "" {
 			k = "U!" + e.UFail
 		}
+		if e.WatchClose {
+			k = "X"
+		}
 		s = append(s, fmt.Sprintf("%s+%s", k, e.Gap))
 	}
 	if c.UnicastOnly {
@@ -309,7 +323,7 @@ func TestVerifC06(t *testing.T) {
 	r := ev.Begin("C06", "histories")
 	defer r.End(t)
 	r.Rule = "histories = all sequences of <=K events, event = (solicitation from :: | unicast solicitation) x gap to the previous event in {0, 100ms, 1s, 2.9s, 3s-1ns, 3s, 3.1s, 6s}, or a link-state change (tear-down and re-initialisation) or a transient failure (ENOBUFS) of the next scheduled multicast transmission, each x gap {100ms, 1s, 3.1s, 6s}, injected into the real Advertiser with min=max=4s (periodic ticks at 0,4,8,... interleave) and min=max=60s (long quiet periods; quick: histories <=2), plus all sequences of <=3 (thorough 4) events over {solicitation from ::, unicast solicitation} x gap {0.1, 1, 3.1 s} and {unicast solicitation whose answer fails with EHOSTUNREACH, ENETUNREACH, EADDRNOTAVAIL, EINVAL, ENOBUFS} in normal and unicast-only mode, plus bursts of 4, 5, 6 and 9 solicitations (unicast / from :: / alternating; 0, 0.1, 1 s apart; at start and after a solicited multicast RA), under the virtual clock in the canonical schedule; oracle on virtual WriteTo timestamps to ff02::1, per connection generation from its initial RA: consecutive >= 3s apart, every trigger (tick or :: solicitation) served within 3s, unicast answers conserved; states = histories executed, transitions = scheduler steps; non-trivial = history has >=1 event; distinct = distinct history"
-	r.Assumptions = []string{"canonical schedule per history (goroutine interleavings are C07/C08's subject)", "random delay draws at their default (0) answer"}
+	r.Assumptions = []string{"canonical schedule per history (goroutine interleavings are C07/C08's subject)", "random delay draws at their default (0) answer, except for histories of <=2 solicitations, which run with every combination of draws {0, middle, maximum}"}
 	if r.Replay != nil {
 		var c c06Case
 		if err := json.Unmarshal(r.Replay, &c); err != nil {
@@ -425,6 +439,41 @@ func TestVerifC06(t *testing.T) {
 			}
 			return !r.OverBudget()
 		})
+	}
+
+	// Every random delay draw (0, middle, maximum of each range) for all histories of <=2
+	// solicitations (the other parts use the default draw 0): a delay added to a
+	// transmission moves it relative to the instant the rate limiter recorded.
+	{
+		g3 := []time.Duration{100 * time.Millisecond, time.Second, 2900 * time.Millisecond, 3100 * time.Millisecond}
+		ndraws := int64(0)
+		enum.Sequences(2*len(g3), 2, func(seq []int) bool {
+			idx++
+			if !r.Mine(idx) || len(seq) == 0 {
+				return true
+			}
+			c := c06Case{}
+			for _, s := range seq {
+				c.Events = append(c.Events, c06Event{Multicast: s%2 == 0, Gap: g3[s/2]})
+			}
+			var a *advWorld
+			sc := c06Scenario(c, &a)
+			sc.Check = func(x *vsched.Exec) [][2]string { return c06Check(c, x, a) }
+			st := vsched.Explore(t, sc, vsched.Options{Bound: 0, NoEnvCost: true, OnExec: func(x *vsched.Exec, viol [][2]string) {
+				ndraws++
+				r.Case(c.String()+fmt.Sprint(x.Choices()), true)
+				for _, v := range viol {
+					cc := c
+					cc.Choices = x.Choices()
+					r.Violation(v[0], "history "+c.String()+" draws "+fmt.Sprint(x.Choices())+": "+v[1], cc)
+				}
+			}})
+			r.Count("states", st.States)
+			r.Count("transitions", st.Transitions)
+			r.Count("traces_validated_against_impl", st.Executions)
+			return !r.OverBudget()
+		})
+		r.Count("executions_over_all_random_delay_draws", ndraws)
 	}
 
 	// Bursts beyond K: n solicitations (all unicast / all from :: / alternating) within
